@@ -52,6 +52,83 @@ theorem fromEntries_sorted {α : Type} (kvs : List (String × α)) (h : KeysSort
   rw [foldl_insertKV_sorted kvs [] h (by simp)]
   simp
 
+theorem insertKV_keys_mem {α : Type} (k : String) (v : α) :
+    ∀ (l : List (String × α)) (x : String), x ∈ (insertKV k v l).map Prod.fst →
+      x = k ∨ x ∈ l.map Prod.fst
+  | [], x, h => by simp [insertKV] at h; exact Or.inl h
+  | (k', v') :: rest, x, h => by
+    unfold insertKV at h
+    split at h
+    · simp only [List.map_cons, List.mem_cons] at h ⊢
+      rcases h with h | h | h
+      · exact Or.inl h
+      · exact Or.inr (Or.inl h)
+      · exact Or.inr (Or.inr h)
+    · split at h
+      · simp only [List.map_cons, List.mem_cons] at h ⊢
+        rcases h with h | h
+        · exact Or.inl h
+        · exact Or.inr (Or.inr h)
+      · simp only [List.map_cons, List.mem_cons] at h ⊢
+        rcases h with h | h
+        · exact Or.inr (Or.inl h)
+        · rcases insertKV_keys_mem k v rest x h with h | h
+          · exact Or.inl h
+          · exact Or.inr (Or.inr h)
+
+theorem String.lt_of_not_lt_of_ne {a b : String} (h1 : ¬ a < b) (h2 : ¬ a = b) : b < a := by
+  apply Classical.byContradiction
+  intro h3
+  exact h2 (String.le_antisymm (String.not_lt.mp h3) (String.not_lt.mp h1))
+
+/-- `BTreeMap::insert` keeps the keys strictly increasing -/
+theorem insertKV_sorted {α : Type} (k : String) (v : α) :
+    ∀ (l : List (String × α)), KeysSorted l → KeysSorted (insertKV k v l)
+  | [], _ => by simp [insertKV, KeysSorted]
+  | (k', v') :: rest, h => by
+    have hh : ∀ b ∈ rest.map Prod.fst, k' < b := by
+      have := h; unfold KeysSorted at this
+      simp only [List.map_cons, List.pairwise_cons] at this
+      exact this.1
+    have ht : KeysSorted rest := h.tail
+    unfold insertKV
+    split
+    · rename_i hlt
+      unfold KeysSorted at h ⊢
+      simp only [List.map_cons, List.pairwise_cons] at h ⊢
+      refine ⟨?_, h⟩
+      intro b hb
+      rcases List.mem_cons.mp hb with hb | hb
+      · rw [hb]; exact hlt
+      · exact String.lt_trans hlt (hh b hb)
+    · split
+      · rename_i _ heq
+        unfold KeysSorted at h ⊢
+        simp only [List.map_cons, List.pairwise_cons] at h ⊢
+        rw [heq]; exact h
+      · rename_i hnlt hne
+        have hgt : k' < k := String.lt_of_not_lt_of_ne hnlt hne
+        have ih := insertKV_sorted k v rest ht
+        unfold KeysSorted at ih ⊢
+        simp only [List.map_cons, List.pairwise_cons]
+        refine ⟨?_, ih⟩
+        intro b hb
+        rcases insertKV_keys_mem k v rest b hb with hb | hb
+        · rw [hb]; exact hgt
+        · exact hh b hb
+
+/-- every map built by `BTreeMap` insertions has strictly increasing keys, whatever the order and
+    multiplicity of the inserted keys -/
+theorem fromEntries_keysSorted {α : Type} (kvs : List (String × α)) : KeysSorted (fromEntries kvs) := by
+  unfold fromEntries
+  have : ∀ (l acc : List (String × α)), KeysSorted acc →
+      KeysSorted (l.foldl (fun m kv => insertKV kv.1 kv.2 m) acc) := by
+    intro l
+    induction l with
+    | nil => intro acc h; simpa using h
+    | cons kv l ih => intro acc h; simp only [List.foldl_cons]; exact ih _ (insertKV_sorted _ _ _ h)
+  exact this kvs [] (by simp [KeysSorted])
+
 theorem keysSorted_of_keys_eq {α β : Type} {a : List (String × α)} {b : List (String × β)}
     (hk : a.map Prod.fst = b.map Prod.fst) (h : KeysSorted b) : KeysSorted a := by
   unfold KeysSorted at h ⊢
